@@ -292,7 +292,7 @@ class Cancel(BaseException):
     pass
 
 
-FAULT_KINDS = (Fault, AttributeError, BaseFault, TypeError, ValueError, KeyError, RuntimeError)
+FAULT_KINDS = (Fault, AttributeError, BaseFault, TypeError, ValueError, KeyError, RuntimeError, StopAsyncIteration)
 
 
 def make_fault(sel):
@@ -371,6 +371,8 @@ class World:
             st.obj = AsyncFullSource(st)
         elif flavour == "adual":
             st.obj = AsyncDualSource(st)
+        elif flavour == "aitb":
+            st.obj = AsyncIterableOf(st)
         else:
             raise HarnessError("flavour %r" % (flavour,))
         return st.obj
@@ -472,6 +474,8 @@ class SrcState:
         f = self.flavour
         if f == "agen":
             return self.ended or self.closed > 0 or self.obj.ag_frame is None
+        if f == "aitb":
+            return self.ended or self.closed > 0 or not self.started
         if f == "acls" or f == "afull" or f == "adual":
             return self.ended or self.closed > 0
         return True  # nothing to release for sync / bare sources
@@ -607,6 +611,17 @@ class AsyncClsSource(AsyncBareSource):
             st.world.log.append(("close", st.sid))
         st.closed += 1
         return st.world.aclose_ret
+
+
+class AsyncIterableOf:
+    """An async *iterable* (no __anext__/aclose itself) whose __aiter__ hands out a closeable
+    class-based iterator."""
+
+    def __init__(self, st):
+        self.st = st
+
+    def __aiter__(self):
+        return AsyncClsSource(self.st)
 
 
 class AsyncDualSource(AsyncClsSource):
